@@ -3,10 +3,10 @@ package interp
 // Engine side of the harness vocabulary (package nd) and the path runner.
 
 import (
-	"os"
 	"fmt"
 	"go/token"
 	"go/types"
+	"os"
 	"runtime"
 	"strings"
 )
